@@ -21,6 +21,14 @@ def src_hash(repo=None):
     return h.hexdigest()[:24]
 
 
+INSTANTIATE = '''
+template std::size_t CDNS::CdnsExporter::rotate_output<std::string>(const std::string&, bool);
+template std::size_t CDNS::CdnsExporter::rotate_output<int>(const int&, bool);
+template void CDNS::CdnsEncoder::rotate_output<std::string>(const std::string&);
+template void CDNS::CdnsEncoder::rotate_output<int>(const int&);
+'''
+
+
 class AstError(Exception):
     pass
 
@@ -28,7 +36,7 @@ class AstError(Exception):
 def dump(repo=None):
     """Return list of top-level JSON objects of the CDNS:: filtered dump."""
     repo = repo or REPO
-    key = src_hash(repo)
+    key = src_hash(repo) + hashlib.sha256(INSTANTIATE.encode()).hexdigest()[:6]
     os.makedirs(CACHE, exist_ok=True)
     pk = os.path.join(CACHE, "ast-%s.pickle" % key)
     if os.path.exists(pk):
@@ -44,6 +52,8 @@ def dump(repo=None):
             if not os.path.exists(p):
                 raise AstError("missing source file " + p)
             f.write('#include "%s"\n' % p)
+        # explicit instantiations of the member templates the checks lower (forces clang to instantiate the *real* bodies)
+        f.write(INSTANTIATE)
     cmd = ["clang++", "-std=c++14", "-msse4", "-fsyntax-only", "-I", os.path.join(repo, "src"),
            "-Xclang", "-ast-dump=json", "-Xclang", "-ast-dump-filter=CDNS::", unity]
     r = subprocess.run(cmd, stdout=subprocess.PIPE, stderr=subprocess.PIPE)
